@@ -32,9 +32,25 @@ fn variant_name(v: usize) -> &'static str {
     ["bare", "tool", "base", "base+tool"][v]
 }
 
-fn jac(p: &Parameters, variant: usize, q: &Joints, eps: f64) -> Jacobian {
+/// limits: 0 none; 1 + 2k: joint k exactly at its upper limit; 2 + 2k: joint k exactly at its lower limit
+fn robot_with_limits(p: &Parameters, q: &Joints, limits: usize) -> OPWKinematics {
+    if limits == 0 {
+        return OPWKinematics::new(*p);
+    }
+    let k = (limits - 1) / 2;
+    let mut from = q.map(|x| x - 1.0);
+    let mut to = q.map(|x| x + 1.0);
+    if (limits - 1) % 2 == 0 {
+        to[k] = q[k];
+    } else {
+        from[k] = q[k];
+    }
+    OPWKinematics::new_with_constraints(*p, rs_opw_kinematics::constraints::Constraints::new(from, to, 0.0))
+}
+
+fn jac(p: &Parameters, variant: usize, q: &Joints, eps: f64, limits: usize) -> Jacobian {
     let (b, t) = stack_isos(variant);
-    let robot = OPWKinematics::new(*p);
+    let robot = robot_with_limits(p, q, limits);
     match variant {
         0 => Jacobian::new(&robot, q, eps),
         1 => Jacobian::new(&Tool { robot: Arc::new(robot), tool: to_na(&t) }, q, eps),
@@ -50,7 +66,7 @@ fn twist_iso(x: &[f64; 6]) -> Isometry3<f64> {
     )
 }
 
-pub fn eval(p: &Parameters, variant: usize, q: &Joints, eps: f64) -> Result<(Vec<(String, String)>, String), &'static str> {
+pub fn eval(p: &Parameters, variant: usize, q: &Joints, eps: f64, limits: usize) -> Result<(Vec<(String, String)>, String), &'static str> {
     let (b, t) = stack_isos(variant);
     let jg = fkref::geometric_jacobian(p, q, &b, &t);
     let jg_na = Matrix6::from_fn(|r, c| jg[r][c]);
@@ -61,8 +77,8 @@ pub fn eval(p: &Parameters, variant: usize, q: &Joints, eps: f64) -> Result<(Vec
     }
     let cond = smax / smin;
     let mut fails = Vec::new();
-    let tag = format!("{}/eps{:e}", variant_name(variant), eps);
-    let j = jac(p, variant, q, eps);
+    let tag = format!("{}/eps{:e}{}", variant_name(variant), eps, match limits { 0 => "", l if (l - 1) % 2 == 0 => "/joint-at-upper-limit", _ => "/joint-at-lower-limit" });
+    let j = jac(p, variant, q, eps, limits);
     let reach = 1.0 + p.a1.abs() + p.a2.abs() + p.b.abs() + p.c1.abs() + p.c2.abs() + p.c3.abs() + p.c4.abs() + norm(t.t) + norm(b.t);
     let bound = eps * reach + 4e-15 * reach / eps;
     // rows of J through the public API: torques_from_vector(e_k) = J^T e_k
@@ -170,21 +186,26 @@ pub fn run(ctx: &Ctx) -> Report {
     } else {
         [vec![0.4, -2.4], vec![-0.9, 0.5], vec![-1.9, 0.8], vec![0.3, -1.3], vec![0.6, -1.2, 0.05], vec![0.2]]
     };
-    let sizes: Vec<usize> = [robots.len(), 4, EPSS.len()].into_iter().chain(ax.iter().map(|a| a.len())).collect();
+    let sizes: Vec<usize> = [robots.len(), 4, EPSS.len(), 13].into_iter().chain(ax.iter().map(|a| a.len())).collect();
     let n = par::product(&sizes);
     let mut rep = par::run(n, |idx, r| {
-        let mut ix = [0usize; 9];
+        let mut ix = [0usize; 10];
         par::decode(idx, &sizes, &mut ix);
         let p = &robots[ix[0]];
-        let th = [ax[0][ix[3]], ax[1][ix[4]], ax[2][ix[5]], ax[3][ix[6]], ax[4][ix[7]], ax[5][ix[8]]];
+        let th = [ax[0][ix[4]], ax[1][ix[5]], ax[2][ix[6]], ax[3][ix[7]], ax[4][ix[8]], ax[5][ix[9]]];
         let q = user_joints(p, &th);
-        let case = || json!({"params": params_json(p), "variant": ix[1], "q": nums(&q), "eps": EPSS[ix[2]]});
-        match eval(p, ix[1], &q, EPSS[ix[2]]) {
+        let limits = ix[3];
+        // limit variants rotate over the lattice in the quick tier (every posture sees a few of them)
+        if !thorough && limits != 0 && (idx as usize / 13 + limits) % 4 != 0 {
+            return;
+        }
+        let case = || json!({"params": params_json(p), "variant": ix[1], "q": nums(&q), "eps": EPSS[ix[2]], "limits": limits});
+        match eval(p, ix[1], &q, EPSS[ix[2]], limits) {
             Err(_) => r.skipped_precondition += 1,
             Ok((fails, sig)) => {
                 r.states += 1;
                 r.transitions += 7 + 8 * 4;
-                r.sig(sig);
+                r.sig(format!("{sig}:limits{}", if limits == 0 { "none" } else if (limits - 1) % 2 == 0 { "upper" } else { "lower" }));
                 if idx % 20_011 == 0 {
                     r.sample(case);
                 }
@@ -195,7 +216,7 @@ pub fn run(ctx: &Ctx) -> Report {
         }
     });
     rep.traces_validated = rep.states;
-    rep.rule = "robots R x stacks {bare, tool, base, base+tool} x joint lattice (geometric Jacobian condition number < 1e3, else skipped_precondition) x \
+    rep.rule = "robots R (unconstrained, and constrained with each joint in turn exactly on its upper / lower limit) x stacks {bare, tool, base, base+tool} x joint lattice (geometric Jacobian condition number < 1e3, else skipped_precondition) x \
                 differencing steps {1e-7,1e-6,1e-5}; the private matrix is read row by row through torques_from_vector(e_k); oracle: geometric Jacobian from \
                 FK_ref axes/origins within eps*reach + 4e-15*reach/eps; J_geo*velocities(X) = X on the 6 basis twists + 2 mixed; torques = J_geo^T F; \
                 isometry/vector/fixed entry points agree; signature = (stack, condition-number decade)".into();
@@ -206,7 +227,7 @@ pub fn run(ctx: &Ctx) -> Report {
 
 pub fn replay(case: &Value) -> Vec<String> {
     let p = params_from_json(&case["params"]);
-    match eval(&p, case["variant"].as_u64().unwrap() as usize, &as_arr6(&case["q"]), as_num(&case["eps"])) {
+    match eval(&p, case["variant"].as_u64().unwrap() as usize, &as_arr6(&case["q"]), as_num(&case["eps"]), case["limits"].as_u64().unwrap_or(0) as usize) {
         Ok((f, _)) => f.into_iter().map(|(k, d)| format!("{k}: {d}")).collect(),
         Err(_) => vec![],
     }
